@@ -22,6 +22,23 @@ CLAIMED = {
              'Workbooks <= ~30 cells, histories <= 30 operations, <= 3 restarts.',
         technique=TECH + ': seeded operation histories with restart faults vs. from-scratch reference model, ddmin replay files',
         design='DESIGN.md section 3 C01'),
+    'C03': dict(
+        level='exploration',
+        text='Seeded save/load histories over real files: models (acyclic, iterative, with a contracting '
+             'cycle; constants hostile to yaml/json; extra_data; in-memory or xlsx origin) are saved with drawn '
+             'file-type combinations interleaved with set_value/evaluate and loaded from name.ext or the bare '
+             'name on the same thread, a fresh thread, or a brand-new interpreter under another '
+             'PYTHONHASHSEED (with or without a fresh thread); checks: saved cells equal, identical answers to '
+             'a post-load history, byte-identical re-save, equal parsed content of the re-saved loaded model, '
+             'cycles/filename/hash/extra_data survive, from_file reflects the last successful to_file. A '
+             'quarter of the runs inject one file fault (failed/torn n-th write, failed open, failed unlink) '
+             'into a to_file and require full recovery by the next successful save.',
+        note='Trusted: the file seam (module-global open/os of pycel.excelcompiler), child interpreters started '
+             'by the harness, harness bookkeeping of which file the last successful save wrote. Crash = failure '
+             'surfaced at a file call; no power-loss model. Known finding KF3 (text starting with "=") is '
+             're-confirmed by a fixed minority of runs.',
+        technique=TECH + ': seeded save/load/restart histories with file-seam faults and fresh-process restarts vs. the saved model',
+        design='DESIGN.md section 3 C03'),
     'C04': dict(
         level='exploration',
         text='The C01 histories (all origins, restarts, every reference form) run under a read-trace monitor '
@@ -122,7 +139,7 @@ NOT_APPLICABLE = {
     'C20': 'text functions are pure string functions',
 }
 
-PENDING = {k: 'applicable (see DESIGN.md) but its check is not built yet in this snapshot; not claimed until it is' for k in ('C03', 'C07')}
+PENDING = {k: 'applicable (see DESIGN.md) but its check is not built yet in this snapshot; not claimed until it is' for k in ('C07',)}
 
 
 def main():
